@@ -43,6 +43,12 @@ pub struct TlCase {
     /// drop the service (and every clone the harness holds) right after the last call was issued
     #[serde(default)]
     pub drop_service: bool,
+    /// fixed timeout of Duration::MAX ("no limit"): finite inner calls must still come through
+    #[serde(default)]
+    pub huge_timeout: bool,
+    /// call cancel_running_future() on the builder before the timeout setter instead of after it
+    #[serde(default)]
+    pub cancel_first: bool,
     pub calls: Vec<TlCall>,
     pub order: Vec<u8>,
 }
@@ -86,12 +92,15 @@ fn case_strategy(_tier: Tier) -> BoxedStrategy<TlCase> {
         any::<bool>(),
         prop::collection::vec(call, 1..=5),
         prop::collection::vec(any::<u8>(), 0..=24),
+        (prop::bool::weighted(0.06), any::<bool>()),
     )
-        .prop_map(|(timeout, per_request, cancel, drop_service, calls, order)| TlCase {
+        .prop_map(|(timeout, per_request, cancel, drop_service, calls, order, (huge_timeout, cancel_first))| TlCase {
             timeout,
-            per_request,
+            per_request: per_request && !huge_timeout,
             cancel,
             drop_service,
+            huge_timeout,
+            cancel_first,
             calls,
             order,
         })
@@ -140,12 +149,25 @@ async fn interp(case: &TlCase) -> Verdict {
     let log = Log::new();
     let mut sim = Sim::new(log.clone(), case.order.clone());
     let n = case.calls.len();
+    // with the "no limit" timeout the deadline is modelled as far beyond every latency
+    const NO_LIMIT_MS: u64 = 1_000_000_000;
     let touts: Vec<u64> = case
         .calls
         .iter()
-        .map(|c| if case.per_request { c.timeout } else { case.timeout })
+        .map(|c| {
+            if case.huge_timeout {
+                NO_LIMIT_MS
+            } else if case.per_request {
+                c.timeout
+            } else {
+                case.timeout
+            }
+        })
         .collect();
-    let lats: Vec<Option<u64>> = (0..n).map(|i| latency_of(&case.calls[i], touts[i])).collect();
+    // with no limit the latencies are placed around the (unused) finite timeout of the case
+    let lats: Vec<Option<u64>> = (0..n)
+        .map(|i| latency_of(&case.calls[i], if case.huge_timeout { case.timeout } else { touts[i] }))
+        .collect();
     let mut table: HashMap<u32, Vec<Step>> = HashMap::new();
     for i in 0..n {
         table.insert(
@@ -163,10 +185,20 @@ async fn interp(case: &TlCase) -> Verdict {
     let inner = Scripted::from_table(log.clone(), table, Step::ok(0));
     // two differently typed services (fixed / per-request timeout): box the call closure
     let mut call: Option<Box<dyn FnMut(Req) -> Fut>> = Some(if case.per_request {
-        let layer = TimeLimiterLayer::builder()
-            .timeout_fn(|r: &Req| Duration::from_millis(r.tag))
-            .cancel_running_future(case.cancel)
-            .build();
+        fn per_req(r: &Req) -> Duration {
+            Duration::from_millis(r.tag)
+        }
+        let layer = if case.cancel_first {
+            TimeLimiterLayer::builder()
+                .cancel_running_future(case.cancel)
+                .timeout_fn(per_req as fn(&Req) -> Duration)
+                .build()
+        } else {
+            TimeLimiterLayer::builder()
+                .timeout_fn(per_req as fn(&Req) -> Duration)
+                .cancel_running_future(case.cancel)
+                .build()
+        };
         let mut svc = layer.layer(inner.clone());
         Box::new(move |req| {
             let _ = svc.poll_ready(&mut std::task::Context::from_waker(
@@ -175,10 +207,22 @@ async fn interp(case: &TlCase) -> Verdict {
             svc.call(req)
         })
     } else {
-        let layer = TimeLimiterLayer::builder()
-            .timeout_duration(Duration::from_millis(case.timeout))
-            .cancel_running_future(case.cancel)
-            .build();
+        let fixed = if case.huge_timeout {
+            Duration::MAX
+        } else {
+            Duration::from_millis(case.timeout)
+        };
+        let layer = if case.cancel_first {
+            TimeLimiterLayer::builder()
+                .cancel_running_future(case.cancel)
+                .timeout_duration(fixed)
+                .build()
+        } else {
+            TimeLimiterLayer::builder()
+                .timeout_duration(fixed)
+                .cancel_running_future(case.cancel)
+                .build()
+        };
         let mut svc = layer.layer(inner.clone());
         Box::new(move |req| {
             let _ = svc.poll_ready(&mut std::task::Context::from_waker(
@@ -191,7 +235,10 @@ async fn interp(case: &TlCase) -> Verdict {
 
     let mut task = vec![None; n];
     let horizon = (0..n)
-        .map(|i| case.calls[i].at + touts[i].max(lats[i].unwrap_or(0)))
+        .map(|i| {
+            let tout = if case.huge_timeout { case.timeout } else { touts[i] };
+            case.calls[i].at + tout.max(lats[i].unwrap_or(0))
+        })
         .max()
         .unwrap_or(0)
         + 5;
@@ -242,6 +289,10 @@ async fn interp(case: &TlCase) -> Verdict {
             if (l as i64 - tmo as i64).abs() <= 1 {
                 near = true;
             }
+        }
+        if resolve.is_none() && case.huge_timeout && lat.is_none() {
+            // no limit and an inner call that never finishes: staying pending is correct
+            continue;
         }
         let Some((rt, out)) = resolve else {
             violations.push(format!(
@@ -377,6 +428,9 @@ async fn interp(case: &TlCase) -> Verdict {
     }
     if case.calls.iter().any(|c| c.busy) {
         classes.push("busy_inner_call");
+    }
+    if case.huge_timeout {
+        classes.push("timeout_duration_max");
     }
     Verdict {
         violations,
